@@ -1,35 +1,21 @@
 import LenaModel.Model.C15
+import LenaModel.Model.C15Spec
 /-! # C15 — helper lemmas
 
-* `beqV/beqL/beqO` are structural equality (hence `DecidableEq Val`);
+About the model alone:
 * facts about `heads`, `tailsOf`, `tailsNE` (`_group_by_starting_prefixes`);
-* what a successful `make` step looks like (`make_ok_inv`) and what it does with one key
-  (`make_key_cases`: proper key / sub-tree / not mentioned);
-* the recursion fuel `makeFuel` suffices. -/
+* what a successful `make` step looks like (`makeStep_ok_inv`) and what it does with one key
+  (`make_key_cases`: proper key / sub-tree / not mentioned); the recursion fuel `makeFuel` suffices;
+* `List.eraseDups` has no duplicates; `groupsAdd` on a dictionary with distinct keys.
+
+Connecting the model with the specification vocabulary of `Model/C15Spec.lean`:
+* `mk_sem`/`items_sem` (objects built by `Selector.__init__` evaluate to `sem`), construction errors,
+  `sem_false`/`sem_total` (boolean form), `getRecGo_eq_valAt`, `containsGo_spec`;
+* `sel_eq_polarity'`, `make_spec` (the tree built by `make` computes `keepL (sel I E d)`);
+* `atPath_keepL`, `keepV_none_iff`, `keepV_congr`/`keepL_congr` (the selected part, path by path);
+* `foldl_groupsOf`, `flatten_filters_perm` (the dictionary of groups). -/
 
 namespace Lena.C15
-
-/-! ### structural equality -/
-
-mutual
-theorem beqV_iff : ∀ a b : Val, beqV a b = true ↔ a = b
-  | .leaf a, .leaf b => by simp [beqV]
-  | .dict a, .dict b => by simp [beqV, beqL_iff a b]
-  | .leaf _, .dict _ => by simp [beqV]
-  | .dict _, .leaf _ => by simp [beqV]
-theorem beqL_iff : ∀ a b : Slots, beqL a b = true ↔ a = b
-  | [], [] => by simp [beqL]
-  | x :: r, y :: r' => by simp [beqL, beqO_iff x y, beqL_iff r r']
-  | [], _ :: _ => by simp [beqL]
-  | _ :: _, [] => by simp [beqL]
-theorem beqO_iff : ∀ a b : Option Val, beqO a b = true ↔ a = b
-  | none, none => by simp [beqO]
-  | some v, some w => by simp [beqO, beqV_iff v w]
-  | none, some _ => by simp [beqO]
-  | some _, none => by simp [beqO]
-end
-
-instance : DecidableEq Val := fun a b => decidable_of_iff _ (beqV_iff a b)
 
 theorem beqL_eq_decide (a b : Slots) : beqL a b = decide (a = b) := by
   cases h : beqL a b with
@@ -98,9 +84,6 @@ theorem newIncl_eq (k : Nat) (opp : List Path) (d : Bool) :
   unfold newIncl
   rw [any_nil_tailsOf]
   by_cases h : [k] ∈ opp <;> simp [h]
-
-/-- no path is listed in both lists -/
-def Disjoint (I E : List Path) : Prop := ∀ p, p ∈ I → p ∈ E → False
 
 theorem disjoint_tails (k : Nat) (I E : List Path) (h : Disjoint I E) :
     Disjoint (tailsNE k I) (tailsNE k E) := by
@@ -299,5 +282,912 @@ theorem make_not_fuel : ∀ (f : Nat) (I E : List Path) (d : Bool),
     cases d
     · have hpos := depth_pos_of_head (show k ∈ heads I from hk); omega
     · have hpos := depth_pos_of_head (show k ∈ heads E from hk); omega
+
+/-! ### groups: `List.eraseDups` and `groupsAdd` -/
+
+theorem not_mem_eraseDups_filter {α : Type} [BEq α] [LawfulBEq α] (a : α) (l : List α) :
+    a ∉ (l.filter (fun b => !b == a)).eraseDups := by
+  rw [List.mem_eraseDups, List.mem_filter]
+  rintro ⟨_, h⟩
+  simp at h
+
+theorem nodup_eraseDups {α : Type} [BEq α] [LawfulBEq α] : ∀ (l : List α), l.eraseDups.Nodup
+  | [] => by simp
+  | a :: l => by
+    rw [List.eraseDups_cons, List.nodup_cons]
+    have : (l.filter (fun b => !b == a)).length < (a :: l).length :=
+      Nat.lt_succ_of_le (List.length_filter_le _ _)
+    exact ⟨not_mem_eraseDups_filter a l, nodup_eraseDups _⟩
+termination_by l => l.length
+
+theorem eraseDups_snoc {α : Type} [BEq α] [LawfulBEq α] (l : List α) (a : α) :
+    (l ++ [a]).eraseDups = l.eraseDups ++ (if a ∈ l then [] else [a]) := by
+  rw [List.eraseDups_append]
+  congr 1
+  by_cases h : a ∈ l
+  · simp [List.removeAll, h]
+  · simp [List.removeAll, h, List.eraseDups_cons]
+
+/-- `groupsAdd` on a dictionary with distinct keys: the group of `kk` gets `v` appended; a new group is
+appended at the end if there is none -/
+theorem groupsAdd_map (kk : Slots) (v : Item) (F : Slots → List Item) : ∀ (L : List Slots), L.Nodup →
+    groupsAdd kk v (L.map (fun k => (k, F k))) =
+      L.map (fun k => (k, F k ++ if kk = k then [v] else [])) ++ (if kk ∈ L then [] else [(kk, [v])])
+  | [], _ => by simp [groupsAdd]
+  | k :: L, hn => by
+    rw [List.nodup_cons] at hn
+    simp only [List.map_cons, groupsAdd, beqL_eq_decide]
+    by_cases e : kk = k
+    · subst e
+      simp only [decide_true, if_true, List.mem_cons, true_or, List.append_nil, List.cons.injEq, true_and]
+      apply List.map_congr_left
+      intro k' hk'
+      have : kk ≠ k' := fun e => hn.1 (e ▸ hk')
+      simp [this]
+    · have ih := groupsAdd_map kk v F L hn.2
+      simp only [e, decide_false, Bool.false_eq_true, if_false, List.append_nil, ih, List.mem_cons, false_or,
+        List.cons_append]
+
+
+/-! ## Part 1 — selectors -/
+
+theorem absorb_idem (r : Bool) (x : Res) : absorb r (absorb r x) = absorb r x := by
+  cases x <;> cases r <;> simp [absorb]
+
+section Sem
+variable (names : List String)
+
+theorem semAny_eq_orRes (r : Bool) (l : List Spec) (v : Item) :
+    semAny names r l v = orRes (l.map (fun s => sem names r s v)) := by
+  induction l with
+  | nil => simp [semAny, orRes]
+  | cons s rest ih =>
+    simp only [semAny, List.map_cons]
+    cases h : sem names r s v with
+    | ok b => cases b <;> simp [orRes, ih]
+    | raise e => simp [orRes]
+
+theorem semAll_eq_andRes (r : Bool) (l : List Spec) (v : Item) :
+    semAll names r l v = andRes (l.map (fun s => sem names r s v)) := by
+  induction l with
+  | nil => simp [semAll, andRes]
+  | cons s rest ih =>
+    simp only [semAll, List.map_cons]
+    cases h : sem names r s v with
+    | ok b => cases b <;> simp [andRes, ih]
+    | raise e => simp [andRes]
+
+/-- what the induction hypothesis on `s` gives about `_selector` of `Selector(s, r)` -/
+theorem inner_of_mk {s : Spec}
+    (hs : ∀ (r : Bool) (o : Obj) (v : Item), mkSelector r s = some o → call names o v = sem names r s v)
+    (r : Bool) (i : Obj) (v : Item) (hi : inner r s = some i) :
+    absorb r (call names i v) = absorb r (sem names r s v) := by
+  by_cases hinst : s.isInst = true
+  · have := hs r i v (by simp [mkSelector, hinst, hi])
+    rw [this]
+  · have := hs r (.selector i r) v (by simp [mkSelector, hinst, hi])
+    rw [← this, call, absorb_idem]
+
+mutual
+theorem mk_sem : ∀ (s : Spec) (r : Bool) (o : Obj) (v : Item),
+    mkSelector r s = some o → call names o v = sem names r s v
+  | .str x, r, o, v, h => by
+    simp [mkSelector, Spec.isInst, inner] at h; subst h; simp [call, sem, absorb]
+  | .cls c, r, o, v, h => by
+    simp [mkSelector, Spec.isInst, inner] at h; subst h; simp [call, sem, absorb]
+  | .fn f, r, o, v, h => by
+    simp [mkSelector, Spec.isInst, inner] at h; subst h; simp [call, sem]
+  | .list l, r, o, v, h => by
+    simp [mkSelector, Spec.isInst, inner] at h
+    obtain ⟨os, hos, rfl⟩ := h
+    simp [call, sem, (items_sem l r os v hos).2]
+  | .tuple l, r, o, v, h => by
+    simp [mkSelector, Spec.isInst, inner] at h
+    obtain ⟨os, hos, rfl⟩ := h
+    simp [call, sem, (items_sem l r os v hos).1]
+  | .notI s r', r, o, v, h => by
+    simp [mkSelector, Spec.isInst, inner] at h
+    obtain ⟨i, hi, rfl⟩ := h
+    simp [call, sem, inner_of_mk names (mk_sem s) r' i v hi]
+  | .selI s r', r, o, v, h => by
+    simp [mkSelector, Spec.isInst, inner] at h
+    obtain ⟨i, hi, rfl⟩ := h
+    simp [call, sem, inner_of_mk names (mk_sem s) r' i v hi]
+  | .andI l r', r, o, v, h => by
+    simp [mkSelector, Spec.isInst, inner] at h
+    obtain ⟨os, hos, rfl⟩ := h
+    simp [call, sem, (items_sem l r' os v hos).1]
+  | .orI l r', r, o, v, h => by
+    simp [mkSelector, Spec.isInst, inner] at h
+    obtain ⟨os, hos, rfl⟩ := h
+    simp [call, sem, (items_sem l r' os v hos).2]
+  | .selCtx k p r', r, o, v, h => by
+    simp [mkSelector, Spec.isInst, inner] at h; subst h
+    cases hg : getRecursively names (v.context names.length) k <;> simp [call, sem, hg]
+  | .bad, r, o, v, h => by
+    simp [mkSelector, Spec.isInst, inner] at h
+theorem items_sem : ∀ (l : List Spec) (r : Bool) (os : List Obj) (v : Item),
+    items r l = some os →
+      callAll names os v = semAll names r l v ∧ callAny names os v = semAny names r l v
+  | [], r, os, v, h => by
+    simp [items] at h; subst h; simp [callAll, callAny, semAll, semAny]
+  | s :: rest, r, os, v, h => by
+    rw [items] at h
+    have hmk : (if s.isInst then inner r s else (inner r s).map (.selector · r)) = mkSelector r s := rfl
+    rw [hmk] at h
+    cases ho : mkSelector r s with
+    | none => simp [ho] at h
+    | some o =>
+      cases hr : items r rest with
+      | none => simp [ho, hr] at h
+      | some os' =>
+        simp [ho, hr] at h; subst h
+        have h1 := mk_sem s r o v ho
+        have h2 := items_sem rest r os' v hr
+        simp only [callAll, callAny, semAll, semAny, h1, h2.1, h2.2]
+        exact ⟨rfl, rfl⟩
+end
+
+/-! ### construction errors -/
+mutual
+theorem inner_none : ∀ (s : Spec) (r : Bool), inner r s = none ↔ s.hasBad = true
+  | .str _, _ | .cls _, _ | .fn _, _ | .selCtx .., _ => by simp [inner, Spec.hasBad]
+  | .bad, _ => by simp [inner, Spec.hasBad]
+  | .list l, r | .tuple l, r => by simp [inner, Spec.hasBad, items_none l r]
+  | .andI l r', _ | .orI l r', _ => by simp [inner, Spec.hasBad, items_none l r']
+  | .notI s r', _ | .selI s r', _ => by simp [inner, Spec.hasBad, inner_none s r']
+theorem items_none : ∀ (l : List Spec) (r : Bool), items r l = none ↔ hasBadL l = true
+  | [], _ => by simp [items, hasBadL]
+  | s :: rest, r => by
+    rw [items, hasBadL]
+    have h1 := inner_none s r
+    have h2 := items_none rest r
+    cases hi : inner r s with
+    | none => simp [h1.1 hi]
+    | some i =>
+      have hm : (if s.isInst = true then some i else Option.map (fun x => Obj.selector x r) (some i))
+          = some (if s.isInst = true then i else .selector i r) := by split <;> rfl
+      rw [hm]
+      have hb : s.hasBad = false := by
+        cases hb : s.hasBad with
+        | false => rfl
+        | true => rw [h1.2 hb] at hi; cases hi
+      cases hr : items r rest with
+      | none => simp [hb, h2.1 hr]
+      | some os =>
+        have hb2 : hasBadL rest = false := by
+          cases hb2 : hasBadL rest with
+          | false => rfl
+          | true => rw [h2.2 hb2] at hr; cases hr
+        simp [hb, hb2]
+end
+
+theorem mkSelector_none (s : Spec) (r : Bool) : mkSelector r s = none ↔ s.hasBad = true := by
+  rw [← inner_none s r, mkSelector]
+  split <;> simp
+
+theorem semBAny_eq_any (l : List Spec) (v : Item) : semBAny names l v = l.any (semB names · v) := by
+  induction l with
+  | nil => rfl
+  | cons s rest ih => simp [semBAny, ih]
+
+theorem semBAll_eq_all (l : List Spec) (v : Item) : semBAll names l v = l.all (semB names · v) := by
+  induction l with
+  | nil => rfl
+  | cons s rest ih => simp [semBAll, ih]
+
+theorem absorb_false_ok (x : Res) : absorb false x = .ok (decide (x = .ok true)) := by
+  cases x with
+  | ok b => cases b <;> simp [absorb]
+  | raise e => simp [absorb]
+
+mutual
+theorem sem_false : ∀ (s : Spec) (v : Item), s.allRoe false = true → s.hasBad = false →
+    sem names false s v = .ok (semB names s v)
+  | .str _, v, _, _ | .cls _, v, _, _ => by simp [sem, semB]
+  | .fn f, v, _, _ => by simp [sem, semB, absorb_false_ok]
+  | .list l, v, ha, hb => by
+    simp only [Spec.allRoe, Spec.hasBad] at ha hb
+    simp [sem, semB, (semL_false l v ha hb).2, absorb]
+  | .tuple l, v, ha, hb => by
+    simp only [Spec.allRoe, Spec.hasBad] at ha hb
+    simp [sem, semB, (semL_false l v ha hb).1, absorb]
+  | .notI s r, v, ha, hb => by
+    simp only [Spec.allRoe, Spec.hasBad, Bool.and_eq_true, beq_iff_eq] at ha hb
+    obtain ⟨rfl, ha⟩ := ha
+    simp [sem, semB, sem_false s v ha hb, absorb, neg]
+  | .selI s r, v, ha, hb => by
+    simp only [Spec.allRoe, Spec.hasBad, Bool.and_eq_true, beq_iff_eq] at ha hb
+    obtain ⟨rfl, ha⟩ := ha
+    simp [sem, semB, sem_false s v ha hb, absorb]
+  | .andI l r, v, ha, hb => by
+    simp only [Spec.allRoe, Spec.hasBad, Bool.and_eq_true, beq_iff_eq] at ha hb
+    obtain ⟨rfl, ha⟩ := ha
+    simp [sem, semB, (semL_false l v ha hb).1]
+  | .orI l r, v, ha, hb => by
+    simp only [Spec.allRoe, Spec.hasBad, Bool.and_eq_true, beq_iff_eq] at ha hb
+    obtain ⟨rfl, ha⟩ := ha
+    simp [sem, semB, (semL_false l v ha hb).2]
+  | .selCtx k p r, v, ha, _ => by
+    simp only [Spec.allRoe, beq_iff_eq] at ha
+    subst ha
+    cases hg : getRecursively names (v.context names.length) k <;> simp [sem, semB, hg, absorb_false_ok]
+  | .bad, _, _, hb => by simp [Spec.hasBad] at hb
+theorem semL_false : ∀ (l : List Spec) (v : Item), allRoeL false l = true → hasBadL l = false →
+    semAll names false l v = .ok (semBAll names l v) ∧ semAny names false l v = .ok (semBAny names l v)
+  | [], v, _, _ => by simp [semAll, semAny, semBAll, semBAny]
+  | s :: rest, v, ha, hb => by
+    simp only [allRoeL, hasBadL, Bool.and_eq_true, Bool.or_eq_false_iff] at ha hb
+    have h1 := sem_false s v ha.1 hb.1
+    have h2 := semL_false rest v ha.2 hb.2
+    simp only [semAll, semAny, semBAll, semBAny, h1]
+    cases semB names s v <;> simp [h2.1, h2.2]
+end
+
+mutual
+theorem sem_total : ∀ (s : Spec) (r : Bool) (v : Item), s.totalOn names v = true → s.hasBad = false →
+    sem names r s v = .ok (semB names s v)
+  | .str _, _, v, _, _ | .cls _, _, v, _, _ => by simp [sem, semB]
+  | .fn f, r, v, ht, _ => by
+    simp only [Spec.totalOn] at ht
+    cases hf : f v with
+    | ok b => simp [sem, semB, hf, absorb]
+    | raise e => simp [hf] at ht
+  | .list l, r, v, ht, hb => by
+    simp only [Spec.totalOn, Spec.hasBad] at ht hb
+    simp [sem, semB, (semL_total l r v ht hb).2, absorb]
+  | .tuple l, r, v, ht, hb => by
+    simp only [Spec.totalOn, Spec.hasBad] at ht hb
+    simp [sem, semB, (semL_total l r v ht hb).1, absorb]
+  | .notI s r', _, v, ht, hb => by
+    simp only [Spec.totalOn, Spec.hasBad] at ht hb
+    simp [sem, semB, sem_total s r' v ht hb, absorb, neg]
+  | .selI s r', _, v, ht, hb => by
+    simp only [Spec.totalOn, Spec.hasBad] at ht hb
+    simp [sem, semB, sem_total s r' v ht hb, absorb]
+  | .andI l r', _, v, ht, hb => by
+    simp only [Spec.totalOn, Spec.hasBad] at ht hb
+    simp [sem, semB, (semL_total l r' v ht hb).1]
+  | .orI l r', _, v, ht, hb => by
+    simp only [Spec.totalOn, Spec.hasBad] at ht hb
+    simp [sem, semB, (semL_total l r' v ht hb).2]
+  | .selCtx k p r', _, v, ht, _ => by
+    simp only [Spec.totalOn] at ht
+    cases hg : getRecursively names (v.context names.length) k with
+    | none => simp [sem, semB, hg]
+    | some sub =>
+      simp only [hg] at ht
+      cases hp : p sub with
+      | ok b => simp [sem, semB, hg, hp, absorb]
+      | raise e => simp [hp] at ht
+  | .bad, _, _, _, hb => by simp [Spec.hasBad] at hb
+theorem semL_total : ∀ (l : List Spec) (r : Bool) (v : Item), totalOnL names v l = true → hasBadL l = false →
+    semAll names r l v = .ok (semBAll names l v) ∧ semAny names r l v = .ok (semBAny names l v)
+  | [], _, v, _, _ => by simp [semAll, semAny, semBAll, semBAny]
+  | s :: rest, r, v, ht, hb => by
+    simp only [totalOnL, hasBadL, Bool.and_eq_true, Bool.or_eq_false_iff] at ht hb
+    have h1 := sem_total s r v ht.1 hb.1
+    have h2 := semL_total rest r v ht.2 hb.2
+    simp only [semAll, semAny, semBAll, semBAny, h1]
+    cases semB names s v <;> simp [h2.1, h2.2]
+end
+
+theorem getRecGo_eq_valAt : ∀ (ks : List String) (d : Slots), getRecGo names d ks = valAt names (.dict d) ks
+  | [], d => by simp [getRecGo, valAt]
+  | [k], d => by
+    simp only [getRecGo, valAt]
+    cases lookupKey names d k with
+    | none => simp
+    | some w => simp
+  | k :: k' :: rest, d => by
+    simp only [getRecGo, valAt]
+    cases h : lookupKey names d k with
+    | none => simp
+    | some w =>
+      cases w with
+      | leaf a => simp [valAt]
+      | dict l => simp [getRecGo_eq_valAt (k' :: rest) l]
+
+/-- `contains` walks all levels but the last through dictionaries and tests the last one -/
+theorem containsGo_spec : ∀ (init : List String) (v : Val) (last : String),
+    containsGo names v (init ++ [last]) =
+      match valAt names v init with
+      | none => false
+      | some (.dict l) => (lookupKey names l last).isSome
+      | some (.leaf a) => pyStr a == last
+  | [], .dict l, last => by simp [containsGo, valAt]
+  | [], .leaf a, last => by simp [containsGo, valAt]
+  | k :: rest, .leaf a, last => by
+    cases rest <;> simp [containsGo, valAt]
+  | k :: rest, .dict l, last => by
+    have ih := fun w => containsGo_spec rest w last
+    cases hr : rest ++ [last] with
+    | nil => simp at hr
+    | cons k' r' =>
+      rw [List.cons_append, hr, containsGo, valAt]
+      · cases hl : lookupKey names l k with
+        | none => simp
+        | some w => simp only []; rw [← hr, ih w]
+      · intro h; cases h
+
+theorem splitDotsC_ne_nil : ∀ cs : List Char, splitDotsC cs ≠ []
+  | [] => by simp [splitDotsC]
+  | c :: cs => by
+    rw [splitDotsC]
+    split
+    · simp
+    · split <;> simp
+
+theorem lookupKey_replicate (n : Nat) (k : String) : lookupKey names (List.replicate n none) k = none := by
+  simp only [lookupKey, slotGet]
+  cases h : (List.replicate n (none : Option Val))[List.idxOf k names]? with
+  | none => rfl
+  | some x =>
+    have := List.mem_of_getElem? h
+    rw [List.mem_replicate] at this
+    rw [this.2]; rfl
+
+end Sem
+
+/-! ## Part 2 — include/exclude trees -/
+
+theorem prefixesDesc_cons (k : Nat) (p : Path) :
+    prefixesDesc (k :: p) = (prefixesDesc p).map (k :: ·) ++ [[k]] := by
+  unfold prefixesDesc
+  simp only [List.length_cons, List.range_succ_eq_map, List.reverse_cons, List.map_append, List.map_cons,
+    List.map_nil, List.take_succ_cons, List.take_zero, List.map_reverse, List.map_map]
+  rfl
+
+theorem ne_nil_of_mem_prefixesDesc {p q : Path} (h : q ∈ prefixesDesc p) : q ≠ [] := by
+  unfold prefixesDesc at h
+  simp only [List.mem_map, List.mem_reverse, List.mem_range] at h
+  obtain ⟨n, hn, rfl⟩ := h
+  cases p with
+  | nil => simp at hn
+  | cons a t => simp
+
+theorem find?_congr' {α : Type} {l : List α} {f g : α → Bool} (h : ∀ x ∈ l, f x = g x) :
+    l.find? f = l.find? g := by
+  induction l with
+  | nil => rfl
+  | cons a t ih =>
+    simp only [List.find?_cons, h a (by simp)]
+    rw [ih (fun x hx => h x (by simp [hx]))]
+
+theorem sel_eq_polarity' : ∀ (p : Path) (I E : List Path) (d : Bool), sel I E d p = polarity I E d p
+  | [], I, E, d => by simp [sel, polarity, prefixesDesc]
+  | k :: p, I, E, d => by
+    rw [sel, sel_eq_polarity' p]
+    unfold polarity
+    rw [prefixesDesc_cons, List.find?_append, List.find?_map]
+    have hf : (prefixesDesc p).find? ((fun q => decide (q ∈ I ∨ q ∈ E)) ∘ (fun x => k :: x)) =
+        (prefixesDesc p).find? (fun q => decide (q ∈ tailsNE k I ∨ q ∈ tailsNE k E)) := by
+      apply find?_congr'
+      intro q hq
+      simp [mem_tailsNE, ne_nil_of_mem_prefixesDesc hq]
+    rw [hf]
+    cases h : (prefixesDesc p).find? (fun q => decide (q ∈ tailsNE k I ∨ q ∈ tailsNE k E)) with
+    | some q =>
+      have hne : q ≠ [] := ne_nil_of_mem_prefixesDesc (List.mem_of_find?_eq_some h)
+      simp [mem_tailsNE, hne]
+    | none =>
+      by_cases h1 : [k] ∈ I
+      · simp [h1]
+      · by_cases h2 : [k] ∈ E <;> simp [h1, h2]
+
+/-! ### trivial restrictions -/
+mutual
+theorem keepV_true : ∀ v : Val, keepV (fun _ => true) v = some v
+  | .leaf a => by simp [keepV]
+  | .dict l => by simp [keepV, keepL_true 0 l]
+theorem keepL_true : ∀ (k : Nat) (l : Slots), keepL (fun _ => true) k l = l
+  | _, [] => by simp [keepL]
+  | k, none :: r => by simp [keepL, keepL_true (k + 1) r]
+  | k, some v :: r => by simp [keepL, keepV_true v, keepL_true (k + 1) r]
+end
+
+mutual
+theorem keepV_false : ∀ v : Val, keepV (fun _ => false) v = none
+  | .leaf a => by simp [keepV]
+  | .dict l => by
+    have h := keepL_false 0 l
+    simp [keepV, nonEmpty]
+    exact h
+theorem keepL_false : ∀ (k : Nat) (l : Slots), ∀ x ∈ keepL (fun _ => false) k l, x = none
+  | _, [] => by simp [keepL]
+  | k, none :: r => by
+    intro x hx; simp [keepL] at hx
+    rcases hx with h | h
+    · exact h
+    · exact keepL_false (k + 1) r x h
+  | k, some v :: r => by
+    intro x hx
+    simp [keepL, keepV_false v] at hx
+    rcases hx with h | h
+    · exact h
+    · exact keepL_false (k + 1) r x h
+end
+
+theorem sel_nil (d : Bool) : sel [] [] d = fun _ => d := by
+  funext p
+  induction p with
+  | nil => rfl
+  | cons k p ih => simpa [sel, tailsNE, tailsOf] using ih
+
+theorem sel_cons (I E : List Path) (d : Bool) (k : Nat) :
+    (fun p => sel I E d (k :: p)) =
+      sel (tailsNE k I) (tailsNE k E) (if [k] ∈ I then true else if [k] ∈ E then false else d) := by
+  funext p; rw [sel]
+
+/-- the per-key logic of `IncludeExcludeTree.get`, both defaults -/
+theorem getL_cons_some (incl : Bool) (keys : List Nat) (subs : List (Nat × Tree)) (k : Nat) (v : Val) (r : Slots) :
+    getL (.node incl keys subs) k (some v :: r) =
+      (if keys.contains k then (if incl then none else some v)
+       else match lookupSub k subs with
+         | some st => getV st v
+         | none => if incl then some v else none) :: getL (.node incl keys subs) (k + 1) r := by
+  rw [getL]
+  cases incl <;> simp <;> split <;> rfl
+
+/-- a node whose keys behave as `KeyCase` says, with sub-trees that follow the rule, follows the rule -/
+theorem node_spec (d : Bool) (I E : List Path) (keys : List Nat) (subs : List (Nat × Tree)) (g : Nat → Made)
+    (hdis : Disjoint I E)
+    (hkey : ∀ k, KeyCase (if d then E else I) (if d then I else E) g keys subs k)
+    (ihg : ∀ k t, g k = .ok t → ∀ v,
+      getV t v = keepV (sel (tailsNE k I) (tailsNE k E) (newIncl k (if d then E else I) d)) v) :
+    ∀ k l, getL (.node d keys subs) k l = keepL (sel I E d) k l := by
+  intro k l
+  induction l generalizing k with
+  | nil => simp [getL, keepL]
+  | cons x r ihl =>
+    cases x with
+    | none => simp [getL, keepL, ihl]
+    | some v =>
+      rw [getL_cons_some, keepL, ihl, sel_cons]
+      congr 1
+      cases d with
+      | true =>
+        -- default include: opp = E, same = I
+        rcases hkey k with ⟨hc, hk, ht, hs, hn⟩ | ⟨t, hc, hg, hl⟩ | ⟨hc, hl, ho, hs⟩
+        · simp at ht hs hk hn hc
+          simp [hc, hk, hn, ht, hs, sel_nil, keepV_false]
+        · simp at hc
+          simp only [List.contains_eq_mem, hc, decide_false, Bool.false_eq_true, if_false, hl, ihg k t hg v, newIncl_eq]
+          by_cases hkE : [k] ∈ E
+          · have hkI : [k] ∉ I := fun hI => hdis [k] hI hkE
+            simp [hkE, hkI]
+          · simp [hkE]
+        · simp at ho hs hc
+          simp [hc, hl, tailsNE_nil_of_not_head k I hs, tailsNE_nil_of_not_head k E ho,
+            single_not_mem_of_not_head k I hs, single_not_mem_of_not_head k E ho, sel_nil, keepV_true]
+      | false =>
+        -- default exclude: opp = I, same = E
+        rcases hkey k with ⟨hc, hk, ht, hs, hn⟩ | ⟨t, hc, hg, hl⟩ | ⟨hc, hl, ho, hs⟩
+        · simp at ht hs hk hc
+          simp [hc, hk, ht, hs, sel_nil, keepV_true]
+        · simp at hc
+          simp only [List.contains_eq_mem, hc, decide_false, Bool.false_eq_true, if_false, hl, ihg k t hg v, newIncl_eq]
+          by_cases hkI : [k] ∈ I <;> simp [hkI]
+        · simp at ho hs hc
+          simp [hc, hl, tailsNE_nil_of_not_head k I ho, tailsNE_nil_of_not_head k E hs,
+            single_not_mem_of_not_head k I ho, single_not_mem_of_not_head k E hs, sel_nil, keepV_false]
+
+theorem make_spec : ∀ (f : Nat) (I E : List Path) (d : Bool) (T : Tree),
+    Disjoint I E → make f I E d = .ok T →
+    T.incl = d ∧ (∀ k l, getL T k l = keepL (sel I E d) k l) ∧ (∀ v, getV T v = keepV (sel I E d) v) := by
+  intro f
+  induction f with
+  | zero => intro I E d T _ h; simp [make] at h
+  | succ f ih =>
+    intro I E d T hdis h
+    rw [make_succ] at h
+    obtain ⟨hextra, hall, hT⟩ := makeStep_ok_inv h
+    have hkey := make_key_cases _ _ _ hextra hall
+    have hL := node_spec d I E _ _ _ hdis hkey
+      (fun k t hg => (ih _ _ _ t (disjoint_tails k I E hdis) hg).2.2)
+    rw [← hT] at hL
+    have hi : T.incl = d := by rw [hT]; rfl
+    refine ⟨hi, hL, ?_⟩
+    intro v
+    cases v with
+    | leaf a => rw [getV, keepV, hi]; cases d <;> rfl
+    | dict l => rw [getV, keepV, hi, hL]; cases d <;> rfl
+
+theorem slotGet_nil (k : Nat) : slotGet [] k = none := by simp [slotGet]
+
+theorem slotGet_cons_zero (x : Option Val) (r : Slots) : slotGet (x :: r) 0 = x := by simp [slotGet]
+
+theorem slotGet_cons_succ (x : Option Val) (r : Slots) (j : Nat) : slotGet (x :: r) (j + 1) = slotGet r j := by
+  simp [slotGet]
+
+theorem slotGet_keepL (pol : Path → Bool) : ∀ (l : Slots) (k j : Nat),
+    slotGet (keepL pol k l) j = (slotGet l j).bind (keepV (fun p => pol ((k + j) :: p)))
+  | [], k, j => by simp [keepL, slotGet_nil]
+  | x :: r, k, 0 => by
+    cases x <;> simp [keepL, slotGet_cons_zero]
+  | x :: r, k, j + 1 => by
+    have ih := slotGet_keepL pol r (k + 1) j
+    have e : k + 1 + j = k + (j + 1) := by omega
+    rw [e] at ih
+    cases x <;> simp [keepL, slotGet_cons_succ, ih]
+
+theorem slotGet_of_all_none {l : Slots} (h : ∀ x ∈ l, x = none) (j : Nat) : slotGet l j = none := by
+  unfold slotGet
+  cases hj : l[j]? with
+  | none => rfl
+  | some x => rw [h x (List.mem_of_getElem? hj)]; rfl
+
+theorem nonEmpty_false_iff (l : Slots) : nonEmpty l = false ↔ ∀ x ∈ l, x = none := by
+  unfold nonEmpty
+  rw [Bool.eq_false_iff]
+  simp only [ne_eq, List.any_eq_true, not_exists, not_and]
+  constructor
+  · intro h x hx
+    cases x with
+    | none => rfl
+    | some v => exact absurd rfl (h _ hx)
+  · intro h x hx
+    rw [h x hx]; simp
+
+theorem atPath_dict_cons (l : Slots) (k : Nat) (p : Path) :
+    atPath (.dict l) (k :: p) = (slotGet l k).bind (fun w => atPath w p) := by
+  rw [atPath]; cases slotGet l k <;> rfl
+
+theorem atPath_leaf_cons (a : Leaf) (k : Nat) (p : Path) : atPath (.leaf a) (k :: p) = none := by
+  rw [atPath]
+
+theorem atPath_nil (v : Val) : atPath v [] = some v := by
+  cases v <;> rw [atPath]
+
+/-- **`get` path by path**: below the root, the value found in the selected part at a path `k :: p` is
+the selected part of the value found there in the context, under the predicate shifted by the path -/
+theorem atPath_keepL : ∀ (p : Path) (k : Nat) (l : Slots) (pol : Path → Bool),
+    atPath (.dict (keepL pol 0 l)) (k :: p) =
+      (atPath (.dict l) (k :: p)).bind (keepV (fun q => pol (k :: p ++ q))) := by
+  intro p
+  induction p with
+  | nil =>
+    intro k l pol
+    simp only [atPath_dict_cons, slotGet_keepL, Nat.zero_add, atPath_nil]
+    cases slotGet l k with
+    | none => rfl
+    | some x => simp
+  | cons k' p ih =>
+    intro k l pol
+    rw [atPath_dict_cons, atPath_dict_cons, slotGet_keepL]
+    cases hx : slotGet l k with
+    | none => rfl
+    | some x =>
+      simp only [Option.bind_some, Nat.zero_add]
+      cases x with
+      | leaf a =>
+        rw [keepV]
+        split <;> simp [atPath_leaf_cons]
+      | dict l' =>
+        have hi := ih k' l' (fun q => pol (k :: q))
+        rw [show (fun q => pol (k :: k' :: p ++ q)) = (fun q => pol (k :: (k' :: p ++ q))) from rfl, ← hi, keepV]
+        split
+        · rfl
+        · rename_i hne
+          simp only [Bool.or_eq_true, not_or, Bool.not_eq_true] at hne
+          have hall := (nonEmpty_false_iff _).1 hne.1
+          simp [atPath_dict_cons, slotGet_of_all_none hall]
+
+theorem isSome_atPath_leaf {a : Leaf} {q : Path} (h : (atPath (.leaf a) q).isSome = true) : q = [] := by
+  cases q with
+  | nil => rfl
+  | cons k p => simp [atPath_leaf_cons] at h
+
+theorem keepL_cons_none (pol : Path → Bool) (k : Nat) (r : Slots) :
+    keepL pol k (none :: r) = none :: keepL pol (k + 1) r := by rw [keepL]
+
+theorem keepL_cons_some (pol : Path → Bool) (k : Nat) (v : Val) (r : Slots) :
+    keepL pol k (some v :: r) = keepV (fun p => pol (k :: p)) v :: keepL pol (k + 1) r := by rw [keepL]
+
+mutual
+theorem keepV_none_iff : ∀ (v : Val) (pol : Path → Bool),
+    keepV pol v = none ↔ ∀ q, (atPath v q).isSome = true → pol q = false
+  | .leaf a, pol => by
+    rw [keepV]
+    constructor
+    · intro h q hq
+      rw [isSome_atPath_leaf hq]
+      cases hp : pol [] with
+      | false => rfl
+      | true => simp [hp] at h
+    · intro h
+      have := h [] (by simp [atPath_nil])
+      simp [this]
+  | .dict l, pol => by
+    rw [keepV]
+    have hl := keepL_none_iff l 0 pol
+    simp only [Nat.zero_add] at hl
+    constructor
+    · intro h q hq
+      have h' : nonEmpty (keepL pol 0 l) = false ∧ pol [] = false := by
+        cases h1 : nonEmpty (keepL pol 0 l) <;> cases h2 : pol [] <;> simp [h1, h2] at h ⊢
+      cases q with
+      | nil => exact h'.2
+      | cons j q' =>
+        rw [atPath_dict_cons] at hq
+        cases hw : slotGet l j with
+        | none => simp [hw] at hq
+        | some w =>
+          simp only [hw, Option.bind_some] at hq
+          exact hl.1 ((nonEmpty_false_iff _).1 h'.1) j w hw q' hq
+    · intro h
+      have h2 : pol [] = false := h [] (by simp [atPath_nil])
+      have h1 : nonEmpty (keepL pol 0 l) = false := by
+        rw [nonEmpty_false_iff]
+        apply hl.2
+        intro j w hw q hq
+        apply h (j :: q)
+        simp [atPath_dict_cons, hw, hq]
+      simp [h1, h2]
+theorem keepL_none_iff : ∀ (l : Slots) (k : Nat) (pol : Path → Bool),
+    (∀ x ∈ keepL pol k l, x = none) ↔
+      ∀ j w, slotGet l j = some w → ∀ q, (atPath w q).isSome = true → pol ((k + j) :: q) = false
+  | [], k, pol => by simp [keepL, slotGet_nil]
+  | none :: r, k, pol => by
+    rw [keepL_cons_none]
+    have ih := keepL_none_iff r (k + 1) pol
+    simp only [List.mem_cons, forall_eq_or_imp, true_and]
+    rw [ih]
+    constructor
+    · intro h j w hw q hq
+      cases j with
+      | zero => simp [slotGet_cons_zero] at hw
+      | succ j =>
+        rw [slotGet_cons_succ] at hw
+        have := h j w hw q hq
+        rwa [show k + 1 + j = k + (j + 1) by omega] at this
+    · intro h j w hw q hq
+      have := h (j + 1) w (by rwa [slotGet_cons_succ]) q hq
+      rwa [show k + (j + 1) = k + 1 + j by omega] at this
+  | some v :: r, k, pol => by
+    rw [keepL_cons_some]
+    have ih := keepL_none_iff r (k + 1) pol
+    have hv := keepV_none_iff v (fun p => pol (k :: p))
+    simp only [List.mem_cons, forall_eq_or_imp]
+    rw [ih, hv]
+    constructor
+    · intro h j w hw q hq
+      cases j with
+      | zero =>
+        simp only [slotGet_cons_zero, Option.some.injEq] at hw
+        subst hw
+        exact h.1 q hq
+      | succ j =>
+        rw [slotGet_cons_succ] at hw
+        have := h.2 j w hw q hq
+        rwa [show k + 1 + j = k + (j + 1) by omega] at this
+    · intro h
+      refine ⟨fun q hq => h 0 v (by simp [slotGet_cons_zero]) q hq, ?_⟩
+      intro j w hw q hq
+      have := h (j + 1) w (by rwa [slotGet_cons_succ]) q hq
+      rwa [show k + (j + 1) = k + 1 + j by omega] at this
+end
+
+theorem atPath_append : ∀ (p q : Path) (v : Val), atPath v (p ++ q) = (atPath v p).bind (fun w => atPath w q)
+  | [], q, v => by simp [atPath_nil]
+  | k :: p, q, .leaf a => by simp [atPath_leaf_cons]
+  | k :: p, q, .dict l => by
+    rw [List.cons_append, atPath_dict_cons, atPath_dict_cons]
+    cases slotGet l k with
+    | none => rfl
+    | some w => simp [atPath_append p q w]
+
+theorem seenOf_absent_iff (o : Option Val) : seenOf o = .absent ↔ o = none := by
+  cases o with
+  | none => simp [seenOf]
+  | some v => cases v <;> simp [seenOf]
+
+theorem seenOf_keep {pol : Path → Bool} (h : pol [] = true) (o : Option Val) :
+    seenOf (o.bind (keepV pol)) = seenOf o := by
+  cases o with
+  | none => rfl
+  | some v => cases v <;> simp [keepV, h, seenOf]
+
+theorem WFL_cons_none (n : Nat) (r : Slots) : WFL n (none :: r) ↔ WFL n r := by rw [WFL]
+
+theorem WFL_cons_some (n : Nat) (v : Val) (r : Slots) : WFL n (some v :: r) ↔ WFV n v ∧ WFL n r := by rw [WFL]
+
+theorem WFV_dict (n : Nat) (l : Slots) : WFV n (.dict l) ↔ l.length = n ∧ WFL n l := by rw [WFV]
+
+theorem agree_of_keepL_eq {pol : Path → Bool} {l1 l2 : Slots} (h : keepL pol 0 l1 = keepL pol 0 l2) :
+    AgreeOn pol (.dict l1) (.dict l2) := by
+  intro p hp
+  cases p with
+  | nil => simp [seen, atPath_nil, seenOf]
+  | cons k p =>
+    have h1 := atPath_keepL p k l1 pol
+    have h2 := atPath_keepL p k l2 pol
+    rw [h] at h1
+    have hsh : (fun q => pol (k :: p ++ q)) [] = true := by simpa using hp
+    have := seenOf_keep (pol := fun q => pol (k :: p ++ q)) hsh (atPath (.dict l1) (k :: p))
+    rw [← h1, h2, seenOf_keep (pol := fun q => pol (k :: p ++ q)) hsh] at this
+    exact this.symm
+
+mutual
+theorem keepV_congr (n : Nat) : ∀ (v1 v2 : Val) (pol : Path → Bool), WFV n v1 → WFV n v2 →
+    (∀ p, pol p = true → seen v1 p = seen v2 p) → keepV pol v1 = keepV pol v2
+  | .leaf a, .leaf b, pol, _, _, h => by
+    rw [keepV, keepV]
+    by_cases hp : pol [] = true
+    · have := h [] hp
+      simp only [seen, atPath_nil, seenOf, Seen.leaf.injEq] at this
+      rw [this]
+    · simp [hp]
+  | .leaf a, .dict l2, pol, _, _, h => by
+    by_cases hp : pol [] = true
+    · have := h [] hp
+      simp [seen, atPath_nil, seenOf] at this
+    · have h2 : keepV pol (.dict l2) = none := by
+        rw [keepV_none_iff]
+        intro q hq
+        cases q with
+        | nil => simpa using hp
+        | cons j q' =>
+          cases hq' : pol (j :: q') with
+          | false => rfl
+          | true =>
+            have := h _ hq'
+            simp only [seen, atPath_leaf_cons] at this
+            rw [show seenOf (none : Option Val) = .absent from rfl, eq_comm, seenOf_absent_iff] at this
+            simp [this] at hq
+      rw [h2, keepV]; simp [hp]
+  | .dict l1, .leaf b, pol, _, _, h => by
+    by_cases hp : pol [] = true
+    · have := h [] hp
+      simp [seen, atPath_nil, seenOf] at this
+    · have h2 : keepV pol (.dict l1) = none := by
+        rw [keepV_none_iff]
+        intro q hq
+        cases q with
+        | nil => simpa using hp
+        | cons j q' =>
+          cases hq' : pol (j :: q') with
+          | false => rfl
+          | true =>
+            have := h _ hq'
+            simp only [seen, atPath_leaf_cons] at this
+            rw [show seenOf (none : Option Val) = .absent from rfl, seenOf_absent_iff] at this
+            simp [this] at hq
+      rw [h2, keepV]; simp [hp]
+  | .dict l1, .dict l2, pol, w1, w2, h => by
+    rw [WFV_dict] at w1 w2
+    have := keepL_congr n l1 l2 0 pol (by rw [w1.1, w2.1]) w1.2 w2.2 (by
+      intro j p hp
+      simp only [Nat.zero_add] at hp
+      have := h _ hp
+      simpa [seen, atPath_dict_cons] using this)
+    rw [keepV, keepV, this]
+theorem keepL_congr (n : Nat) : ∀ (l1 l2 : Slots) (k : Nat) (pol : Path → Bool), l1.length = l2.length →
+    WFL n l1 → WFL n l2 →
+    (∀ j p, pol ((k + j) :: p) = true →
+      seenOf ((slotGet l1 j).bind (fun w => atPath w p)) = seenOf ((slotGet l2 j).bind (fun w => atPath w p))) →
+    keepL pol k l1 = keepL pol k l2
+  | [], [], _, _, _, _, _, _ => rfl
+  | [], _ :: _, _, _, hl, _, _, _ => by simp at hl
+  | _ :: _, [], _, _, hl, _, _, _ => by simp at hl
+  | x1 :: r1, x2 :: r2, k, pol, hl, w1, w2, h => by
+    have htail : ∀ j p, pol ((k + 1 + j) :: p) = true →
+        seenOf ((slotGet r1 j).bind (fun w => atPath w p)) = seenOf ((slotGet r2 j).bind (fun w => atPath w p)) := by
+      intro j p hp
+      have := h (j + 1) p (by rwa [show k + (j + 1) = k + 1 + j by omega])
+      simpa [slotGet_cons_succ] using this
+    have hhead : ∀ p, pol (k :: p) = true →
+        seenOf (x1.bind (fun w => atPath w p)) = seenOf (x2.bind (fun w => atPath w p)) := by
+      intro p hp
+      have := h 0 p (by simpa using hp)
+      simpa [slotGet_cons_zero] using this
+    have hl' : r1.length = r2.length := by simpa using hl
+    cases x1 with
+    | none =>
+      cases x2 with
+      | none =>
+        rw [WFL_cons_none] at w1 w2
+        rw [keepL_cons_none, keepL_cons_none, keepL_congr n r1 r2 (k + 1) pol hl' w1 w2 htail]
+      | some v2 =>
+        rw [WFL_cons_none] at w1
+        rw [WFL_cons_some] at w2
+        have hv : keepV (fun p => pol (k :: p)) v2 = none := by
+          rw [keepV_none_iff]
+          intro q hq
+          cases hq' : pol (k :: q) with
+          | false => rfl
+          | true =>
+            have := hhead q hq'
+            simp only [Option.bind_none, Option.bind_some] at this
+            rw [show seenOf (none : Option Val) = .absent from rfl, eq_comm, seenOf_absent_iff] at this
+            simp [this] at hq
+        rw [keepL_cons_none, keepL_cons_some, hv, keepL_congr n r1 r2 (k + 1) pol hl' w1 w2.2 htail]
+    | some v1 =>
+      cases x2 with
+      | none =>
+        rw [WFL_cons_some] at w1
+        rw [WFL_cons_none] at w2
+        have hv : keepV (fun p => pol (k :: p)) v1 = none := by
+          rw [keepV_none_iff]
+          intro q hq
+          cases hq' : pol (k :: q) with
+          | false => rfl
+          | true =>
+            have := hhead q hq'
+            simp only [Option.bind_none, Option.bind_some] at this
+            rw [show seenOf (none : Option Val) = .absent from rfl, seenOf_absent_iff] at this
+            simp [this] at hq
+        rw [keepL_cons_none, keepL_cons_some, hv, keepL_congr n r1 r2 (k + 1) pol hl' w1.2 w2 htail]
+      | some v2 =>
+        rw [WFL_cons_some] at w1 w2
+        rw [keepL_cons_some, keepL_cons_some, keepL_congr n r1 r2 (k + 1) pol hl' w1.2 w2.2 htail,
+          keepV_congr n v1 v2 (fun p => pol (k :: p)) w1.1 w2.1 (fun p hp => by simpa [seen] using hhead p hp)]
+end
+
+theorem wfl_replicate (n m : Nat) : WFL n (List.replicate m none) := by
+  induction m with
+  | zero => simp [WFL]
+  | succ m ih => rw [List.replicate_succ, WFL_cons_none]; exact ih
+
+/-! ## Part 3 — `GroupBy` -/
+
+theorem groupsAdd_groupsOf (key : Item → Slots) (xs : List Item) (v : Item) :
+    groupsAdd (key v) v (groupsOf key xs) = groupsOf key (xs ++ [v]) := by
+  unfold groupsOf
+  rw [groupsAdd_map (key v) v (fun k => xs.filter (fun v => key v = k)) _ (nodup_eraseDups _),
+    List.map_append, List.map_cons, List.map_nil, eraseDups_snoc, List.map_append]
+  congr 1
+  · apply List.map_congr_left
+    intro k _
+    simp only [List.filter_append, List.filter_cons, List.filter_nil]
+    by_cases e : key v = k <;> simp [e]
+  · simp only [List.mem_eraseDups]
+    by_cases h : key v ∈ xs.map key
+    · simp [h]
+    · have hf : xs.filter (fun w => key w = key v) = [] := by
+        rw [List.filter_eq_nil_iff]
+        intro w hw
+        simp only [decide_eq_true_eq]
+        intro e
+        exact h (List.mem_map.2 ⟨w, hw, e⟩)
+      simp [h, hf, List.filter_append]
+
+theorem foldl_groupsOf (key : Item → Slots) : ∀ (vs pre : List Item),
+    vs.foldl (fun gs v => groupsAdd (key v) v gs) (groupsOf key pre) = groupsOf key (pre ++ vs)
+  | [], pre => by simp
+  | v :: vs, pre => by
+    rw [List.foldl_cons, groupsAdd_groupsOf, foldl_groupsOf key vs (pre ++ [v])]
+    simp
+
+theorem filter_or_perm {α : Type} (p q : α → Bool) (h : ∀ x, p x = true → q x = true → False) :
+    ∀ l : List α, (l.filter p ++ l.filter q).Perm (l.filter (fun x => p x || q x))
+  | [] => by simp
+  | x :: l => by
+    have ih := filter_or_perm p q h l
+    cases hp : p x <;> cases hq : q x
+    · simpa [List.filter_cons, hp, hq] using ih
+    · simp only [List.filter_cons, hp, hq, Bool.false_eq_true, if_false, if_true, Bool.or_true]
+      exact List.perm_middle.trans (List.Perm.cons x ih)
+    · simp only [List.filter_cons, hp, hq, Bool.false_eq_true, if_false, if_true, Bool.or_false, List.cons_append]
+      exact List.Perm.cons x ih
+    · exact absurd hq (fun hq => h x hp hq)
+
+theorem flatten_filters_perm (key : Item → Slots) (vs : List Item) : ∀ (L : List Slots), L.Nodup →
+    ((L.map (fun k => vs.filter (fun v => key v = k))).flatten).Perm (vs.filter (fun v => decide (key v ∈ L)))
+  | [], _ => by simp
+  | k :: L, hn => by
+    rw [List.nodup_cons] at hn
+    have ih := flatten_filters_perm key vs L hn.2
+    simp only [List.map_cons, List.flatten_cons]
+    refine (List.Perm.append_left _ ih).trans ?_
+    have := filter_or_perm (fun v => decide (key v = k)) (fun v => decide (key v ∈ L)) (by
+      intro x h1 h2
+      simp only [decide_eq_true_eq] at h1 h2
+      exact hn.1 (h1 ▸ h2)) vs
+    refine this.trans ?_
+    apply List.Perm.of_eq
+    apply List.filter_congr
+    intro x _
+    simp [List.mem_cons]
 
 end Lena.C15
